@@ -25,7 +25,7 @@ class EnergyStream(Stream):
         for i in range(n):
             kind = rng.choice(["unitary", "unitary_sym", "contractive", "symmetric", "unitary"])
             maxc = 4 if tier == "quick" else 6
-            d = netlib.gen_netlist(rng, max_comps=maxc, max_pins=3, kind=kind, min_comps=1,
+            d = netlib.gen_netlist(rng, max_comps=maxc, max_pins=3 if i % 4 else 4, kind=kind, min_comps=1,
                                    expose_all=kind.startswith("unitary"))
             kinds = {"unitary": ["ELossless", "EPassive"], "unitary_sym": ["ELossless", "EReciprocal", "EPassive"],
                      "contractive": ["EPassive"], "symmetric": ["EReciprocal", "EPassive"]}[kind]
